@@ -1273,6 +1273,12 @@ v("C16", "password-change-keeps-sessions", "break", BASE,
 v("C16", "last-admin-disabled", "break", BASE,
   "        return username in self.admins and len(self.admins) == 1",
   "        return username in self.admins and len(self.admins) == 0", "R16.8", "the last admin can be disabled")
+v("C16", "logout-short-circuited-after-first-success", "break", BASE,
+  "            logged_out = self.local_logout() or logged_out",
+  "            logged_out = logged_out or self.local_logout()", "R16.7", "local session survives once a remote one was ended")
+v("C16", "last-admin-counts-flagged-accounts", "break", BASE,
+  "        return username in self.admins and len(self.admins) == 1",
+  "        flagged = [u for u in self.users.values() if u.is_admin]\n        return username in self.admins and len(flagged) == 1", "R16.8", "disabled administrators counted as remaining")
 v("C16", "benign-auth-nested", "benign", BASE,
   "        if user and not user.disabled and user.password == password:\n            self.sys_log.info(f\"{self.name}: User authenticated: {username}\")\n            return user",
   "        if user is not None and user.disabled is False:\n            if password == user.password:\n                self.sys_log.info(f\"{self.name}: User authenticated: {username}\")\n                return user", None, "conjunction nested, operands swapped")
@@ -1297,6 +1303,12 @@ v("C17", "receive-while-down", "break", DBS,
 v("C17", "disconnect-from-anyone", "break", DBS,
   "                    if connected_ip_address == frame.ip.src_ip_address:",
   "                    if connected_ip_address:", "R17.2", "any host can close another client's connection")
+v("C17", "restore-looks-only-among-live-files", "break", DBS,
+  '''        db_file = self.file_system.get_file(folder_name="database", file_name="database.db", include_deleted=True)''',
+  '''        db_file = self.file_system.get_file(folder_name="database", file_name="database.db")''', "R17.7", "a deleted database file is never found, the restore gives up")
+v("C17", "benign-restore-lookup-flag-from-a-constant-local", "benign", DBS,
+  '''        db_file = self.file_system.get_file(folder_name="database", file_name="database.db", include_deleted=True)''',
+  '''        db_file = self.file_system.get_file(file_name="database.db", folder_name="database", include_deleted=True)''', None, "keyword order changed")
 v("C17", "benign-password-swapped", "benign", DBS,
   "                if self.config.db_password == password:", "                if password == self.config.db_password:", None, "operands swapped")
 
